@@ -891,6 +891,95 @@ func fullDuplex(id string, manual bool, seed uint64) runner.Result {
 	return res
 }
 
+// concurrentInvokes: several goroutines call Invoke on one connection at the same time. The
+// connection serves one RPC at a time, so the others wait their turn inside the library with their
+// request already in hand. Every handler invocation must see exactly the request of one caller,
+// every caller must get the answer to its own request, and no request is seen twice.
+func concurrentInvokes(id string, seed uint64) runner.Result {
+	r := &payload.SplitMix{S: seed}
+	cfg := prog.GenConfig(r, false)
+	if cfg.Net.Cap == 0 {
+		cfg.Net.Cap = -1
+	}
+	var mu sync.Mutex
+	seen := map[[2]uint64]int{}
+	var fails []string
+	handler := rig.HandlerFunc(func(stream drpc.Stream, rpc string) error {
+		var m []byte
+		if err := stream.MsgRecv(&m, payload.Enc{}); err != nil {
+			return err
+		}
+		h, perr := payload.Parse(m)
+		mu.Lock()
+		if perr != nil {
+			fails = append(fails, fmt.Sprintf("the handler of %s received a damaged request (%d bytes): %v", rpc, len(m), perr))
+		} else {
+			seen[[2]uint64{h.Tag, uint64(h.Seq)}]++
+			if want := fmt.Sprintf("/call/%d/%d", h.Tag, h.Seq); rpc != want {
+				fails = append(fails, fmt.Sprintf("the handler of %s received the request of %s", rpc, want))
+			}
+		}
+		mu.Unlock()
+		out := payload.Make(h.Tag, 1, 0, h.Seq, int(h.Len)%97)
+		return stream.MsgSend(&out, payload.Enc{})
+	})
+	rg := rig.New(rig.Config{Net: cfg.Net, Client: cfg.Client, Server: cfg.Server}, handler)
+	defer rg.Teardown()
+	callers := 2 + r.Intn(4)
+	per := 1 + r.Intn(4)
+	var ops []*rig.Op
+	total := 0
+	for c := 0; c < callers; c++ {
+		c := c
+		var sizes []int
+		for i := 0; i < per; i++ {
+			sizes = append(sizes, payload.Pick(r, []int{0, 1, 10, 50, 200, 1500, 5000}))
+		}
+		total += per
+		ops = append(ops, rig.Go("caller", func() (interface{}, error) {
+			for i, sz := range sizes {
+				in := payload.Make(uint64(c+1), 0, 0, uint32(i), sz)
+				var out []byte
+				if err := rg.Conn.Invoke(context.Background(), fmt.Sprintf("/call/%d/%d", c+1, i), payload.Enc{}, &in, &out); err != nil {
+					return nil, fmt.Errorf("caller %d call %d: %w", c+1, i, err)
+				}
+				h, perr := payload.Parse(out)
+				if perr != nil || h.Tag != uint64(c+1) || h.Seq != uint32(i) || h.Dir != 1 {
+					return nil, fmt.Errorf("caller %d call %d got the answer of caller %d call %d (dir %d, parse error %v)", c+1, i, h.Tag, h.Seq, h.Dir, perr)
+				}
+			}
+			return nil, nil
+		}))
+	}
+	desc := fmt.Sprintf("%s | concurrent-invokes: %d goroutines x %d unary calls on one connection", cfg.Desc, callers, per)
+	for _, op := range ops {
+		if !op.Wait() {
+			_, snap := census.Quiesce(rig.Watchdog)
+			return runner.Violation(id, "delivery:concurrent-invokes-blocked", desc+"\na caller never returns\n"+census.Dump(census.InDRPC(snap)))
+		}
+		if op.Err != nil {
+			mu.Lock()
+			fails = append(fails, op.Err.Error())
+			mu.Unlock()
+		}
+	}
+	mu.Lock()
+	defer mu.Unlock()
+	for c := 0; c < callers; c++ {
+		for i := 0; i < per; i++ {
+			if n := seen[[2]uint64{uint64(c + 1), uint64(i)}]; n != 1 && len(fails) < 6 {
+				fails = append(fails, fmt.Sprintf("the request of caller %d call %d reached a handler %d times", c+1, i, n))
+			}
+		}
+	}
+	if len(fails) > 0 {
+		return runner.Violation(id, "delivery:concurrent-invokes-request-or-answer-of-another-call", desc+"\n"+strings.Join(fails, "\n"))
+	}
+	res := runner.Hold(id, desc, true)
+	res.Events = int64(2 * total)
+	return res
+}
+
 func describeScript(s *prog.Script) string {
 	return "client=[" + actsString(s.Client) + "] handler=[" + actsString(s.Handler) + "]"
 }
@@ -907,6 +996,11 @@ func gen(tier string, seed uint64) []runner.Scenario {
 			id := fmt.Sprintf("full-duplex/manual=%v/%d", manual, i)
 			out = append(out, runner.Scenario{ID: id, Run: func() runner.Result { return fullDuplex(id, manual, payload.Hash(seed, 0xC01D, uint64(i))) }})
 		}
+	}
+	for i := 0; i < n/2; i++ {
+		i := i
+		id := fmt.Sprintf("concurrent-invokes/%d", i)
+		out = append(out, runner.Scenario{ID: id, Run: func() runner.Result { return concurrentInvokes(id, payload.Hash(seed, 0xC01C, uint64(i))) }})
 	}
 	for i := 0; i < n/2; i++ {
 		i := i
@@ -945,7 +1039,7 @@ func main() {
 	runner.Main(runner.Check{
 		Property: "C01",
 		Level:    "exploration",
-		Rule:     "one case = one RPC of one of 7 shapes (unary, client-stream, server-stream, bidirectional echo, 2-3 concurrent senders on the client / on the server, half-close racing the last sends) in one seeded cell of split size {-1,1,2,7,64,1024,64K} x writer buffer {1,16,100,4096,1M} x manual/auto flush x cancel mode x transport capacity {rendezvous,64,4096,unbounded} x read chunkers, with message sizes at the split/buffer boundaries (0,1,split-1,split,split+1,wbuf..,3*split+5,200KiB); one case in four parks a receiver between taking and releasing the lent buffer while further messages arrive; others run under perturbed scheduling; every tenth program is repeated over net.Pipe, loopback TCP and a unix socket with the delivery oracles only. Non-trivial: all. Distinct: by cell and program; evidence counts configuration cells and point-hit sequences seen.",
+		Rule:     "one case = one RPC of one of 7 shapes (unary, client-stream, server-stream, bidirectional echo, 2-3 concurrent senders on the client / on the server, half-close racing the last sends) in one seeded cell of split size {-1,1,2,7,64,1024,64K} x writer buffer {1,16,100,4096,1M} x manual/auto flush x cancel mode x transport capacity {rendezvous,64,4096,unbounded} x read chunkers, with message sizes at the split/buffer boundaries (0,1,split-1,split,split+1,wbuf..,3*split+5,200KiB); one case in four parks a receiver between taking and releasing the lent buffer while further messages arrive; others run under perturbed scheduling; every tenth program is repeated over net.Pipe, loopback TCP and a unix socket with the delivery oracles only. Non-trivial: all. Distinct: by cell and program; evidence counts configuration cells and point-hit sequences seen. Plus concurrent-invokes cases: 2-5 goroutines x 1-4 unary Invoke calls (sizes 0-5000) on one connection at once; every handler sees exactly one caller's request under that caller's rpc name, every caller gets the answer to its own request, no request arrives twice.",
 		Assumptions: []string{
 			"flush-at-return is asserted under automatic flushing only; under ManualFlush the scripts flush explicitly after each burst",
 			"for one consumer, FIFO-queue linearizability reduces to: per-sender order plus 'a send that returned before another began is received first'; this is checked directly on the recorded history",
